@@ -866,6 +866,8 @@ def _adapter(kind, has_f=False, has_n=False):
     def f(m, a, ci):
         it = get_iter(m, a[0])
         fn = a[1] if has_f else None
+        if fn is not None and isinstance(fn, Agg):
+            fn = m.heap.alloc(fn)      # FnMut closures keep their captured state between calls
         n = simp(a[1]) if has_n else None
         if has_n and is_sym(n):
             raise EncoderGap('%s with symbolic count' % kind)
@@ -888,7 +890,10 @@ def iter_chain(m, a, ci):
 
 @reg('from_fn', 'iter::from_fn')
 def iter_from_fn(m, a, ci):
-    return Adapter('from_fn', None, a[0])
+    f = a[0]
+    if isinstance(f, Agg):
+        f = m.heap.alloc(f)            # the closure's captured state persists between calls
+    return Adapter('from_fn', None, f)
 
 
 @reg('Peekable::peek')
@@ -2270,3 +2275,8 @@ def str_as_bytes(m, a, ci):
 def u8_is_ascii_whitespace(m, a, ci):
     c = m.load(a[0]) if isinstance(a[0], Ref) else a[0]
     return b_or(*[i_eq(c, k, 8) for k in (0x20, 0x09, 0x0A, 0x0C, 0x0D)])
+
+
+@reg('Itertools::collect_vec')
+def itertools_collect_vec(m, a, ci):
+    return Vec(drain(m, get_iter(m, a[0])), 'Vec')
